@@ -69,8 +69,12 @@ func (r *Run) Restart() {
 	r.Script.W = r.W
 }
 
+// Genesis is the chain time of the scripted history: the evening of a January 31st in a leap
+// year, so that calendar arithmetic (vesting months) differs between time zones.
+var Genesis = time.Date(2024, 1, 31, 20, 0, 0, 0, time.UTC)
+
 func DefaultConfig() world.Config {
-	return world.Config{Stakes: world.StakesOf(1_000_000, 1_000_000, 1_000_000, 500_000), Users: []string{"adm", "U1", "U2"}}
+	return world.Config{Stakes: world.StakesOf(1_000_000, 1_000_000, 1_000_000, 500_000), Users: []string{"adm", "U1", "U2"}, Time: Genesis}
 }
 
 // Execute runs the scripted history through InitChain / FinalizeBlock / Commit.
